@@ -306,7 +306,12 @@ class apply_theorem_macro(Macro):
         # Apply beta_norm when theorem is a first-order pattern.
         if not matcher.is_fo_pattern(th.prop):
             pt = pt.on_prop(beta_norm_conv())
-        pt = pt.implies_elim(*pts)
+        for prev_pt in pts:
+            # eval matches the premises up to beta-conversion: normalize a premise
+            # that is not literally the (normalized) assumption of the theorem.
+            if prev_pt.prop != pt.assums[0]:
+                prev_pt = prev_pt.on_prop(beta_norm_conv())
+            pt = pt.implies_elim(prev_pt)
 
         # Check that all type variables are instantiated
         for stvar in th.prop.get_stvars():
